@@ -110,6 +110,12 @@ impl AffineRepr for AffinePoint {
         }
     }
 
+    fn is_zero(&self) -> bool {
+        // Both curve points of the identity's coset, (0, 1) and (0, -1),
+        // represent the identity element.
+        self.inner.x == Fq::ZERO
+    }
+
     fn generator() -> Self {
         Element::GENERATOR.into()
     }
